@@ -1537,3 +1537,50 @@ def scale_parse_roles(prog: Program, run: Run, R: str) -> None:
                               f"scales are parsed with domain_type={got.get('domain_type')}, "
                               f"range_type={got.get('range_type')}; {cls} maps {dom} to {rng}",
                               m.loc)
+
+
+# ===================================================================== tolerances
+TOLERANCE_CEILING = {
+    # function -> largest tolerance under which two numbers may be taken for equal there; the
+    # values are the ones of the tree the rules were written for (ODX itself says `factor = 0`
+    # and `equal`): a smaller one, or an exact test, is fine -- a larger one changes which
+    # descriptions are encodable
+    "LinearSegment.convert_physical_to_internal": 1e-10,
+    "ScaleLinearCompuMethod.__post_init__": 1e-10,
+}
+
+
+def tolerances(prog: Program, run: Run, R: str) -> None:
+    """Comparisons of `abs(...)` with a float literal in the compu methods are tolerance tests:
+    none is wider than the ceiling recorded for its function, and no new one appears."""
+    n = 0
+    for f in prog.iter_functions():
+        if not f.module.rel.startswith("odxtools/compumethods/"):
+            continue
+        for x in walk_no_nested(f.node):
+            if not (isinstance(x, ast.Compare) and len(x.ops) == 1):
+                continue
+            sides = [x.left, x.comparators[0]]
+            lit = [s_ for s_ in sides if isinstance(s_, ast.Constant) and isinstance(
+                s_.value, float) and 0 < abs(s_.value) < 1e-2]
+            ab = [s_ for s_ in sides if isinstance(s_, ast.Call) and call_name(s_) == "abs"]
+            if not lit or not ab:
+                continue
+            n += 1
+            ceil = TOLERANCE_CEILING.get(f.qual)
+            if ceil is None:
+                run.violation(R, f.qual, "new-tolerance",
+                              f"`{ast.unparse(x)}` compares with a tolerance where the "
+                              "specification compares exactly and the other compu methods do "
+                              "too: values within the tolerance are treated differently",
+                              _loc(f, x), ast.unparse(x))
+            elif lit[0].value > ceil:
+                run.violation(R, f.qual, "tolerance-widened",
+                              f"`{ast.unparse(x)}`: the tolerance {lit[0].value!r} is wider than "
+                              f"{ceil!r}: e.g. a scale with a factor of 1e-7 (a resolution of "
+                              "1e-7 per bit) is now handled as if its factor were 0", _loc(f, x),
+                              ast.unparse(x))
+            else:
+                run.ok(R, f.qual, f"`{ast.unparse(x)}`: tolerance within {ceil!r}", _loc(f, x))
+    if n < 2:
+        raise AnalysisError(f"only {n} tolerance tests found in the compu methods (expected 2)")
